@@ -186,6 +186,57 @@ pub fn prefixes(text: &str, with_ws: bool) -> Vec<String> {
     out
 }
 
+/// The "editing family" of a sentence: the sentence itself; every suffix that starts at a
+/// word boundary (text deleted from the front, so every word is seen at the very start of
+/// the document), each also behind a blank, a newline and an indent; every prefix that ends
+/// at a word boundary, each also with a trailing blank; and the sentence without its final
+/// punctuation.  Together with the character-level prefixes this puts every trigger word at
+/// both ends of a document, with and without adjacent white space.
+pub fn family(text: &str) -> Vec<String> {
+    let chars: Vec<char> = text.chars().collect();
+    let mut out = vec![text.to_string()];
+    let mut bounds: Vec<usize> = vec![0];
+    for i in 1..chars.len() {
+        if chars[i - 1].is_whitespace() && !chars[i].is_whitespace() {
+            bounds.push(i);
+        }
+    }
+    for &b in &bounds {
+        let suf: String = chars[b..].iter().collect();
+        if b > 0 {
+            out.push(suf.clone());
+        }
+        out.push(format!(" {suf}"));
+        out.push(format!("\n{suf}"));
+        if b % 3 == 0 {
+            out.push(format!("  {suf}"));
+            out.push(format!("\t{suf}"));
+            out.push(format!("\n\n{suf}"));
+        }
+        // lower-cased first letter: the word as it appears mid-sentence
+        let mut lc: Vec<char> = chars[b..].to_vec();
+        if let Some(c) = lc.first_mut() {
+            if c.is_uppercase() {
+                *c = c.to_ascii_lowercase();
+                let l: String = lc.iter().collect();
+                out.push(format!(" {l}"));
+                out.push(l);
+            }
+        }
+    }
+    for &b in &bounds[1..] {
+        let pre: String = chars[..b].iter().collect();
+        out.push(pre.trim_end().to_string());
+        out.push(pre);
+    }
+    let trimmed = text.trim_end_matches(['.', '!', '?']);
+    if trimmed.len() != text.len() {
+        out.push(trimmed.to_string());
+        out.push(format!("{trimmed} "));
+    }
+    out
+}
+
 /// A pseudo-random document assembled from corpus sentences: optional multi-byte
 /// lead-in, 1-3 paragraphs.
 pub fn compose(corpus: &[String], rng: &mut Rng) -> String {
